@@ -5,6 +5,7 @@ package main
 import (
 	"fmt"
 	"go/token"
+	"go/types"
 	"sort"
 	"strings"
 
@@ -143,6 +144,85 @@ func (l *svcLocks) lockOps(fn *ssa.Function) int {
 
 var b2Trio = map[string]bool{"columns": true, "results": true, "size": true}
 
+// batchCarriers: struct types of writer/service that the insert service keeps in one of its fields and that hold batch state
+// themselves (at least two fields named like the service's batch fields): the batch may have been gathered into one object.
+func batchCarriers(c *Ctx) map[string]bool {
+	if v, ok := c.memo["batchCarriers"]; ok {
+		return v.(map[string]bool)
+	}
+	out := map[string]bool{}
+	c.memo["batchCarriers"] = out
+	p := c.ByPathLoaded(pkgWService)
+	if p == nil {
+		return out
+	}
+	svc, _ := p.Types.Scope().Lookup("InsertServiceV2").(*types.TypeName)
+	if svc == nil {
+		return out
+	}
+	st, ok := svc.Type().Underlying().(*types.Struct)
+	if !ok {
+		return out
+	}
+	for i := 0; i < st.NumFields(); i++ {
+		nt := namedOf(st.Field(i).Type())
+		if nt == nil || nt.Obj().Pkg() != p.Types {
+			continue
+		}
+		inner, ok := nt.Underlying().(*types.Struct)
+		if !ok {
+			continue
+		}
+		n := 0
+		for j := 0; j < inner.NumFields(); j++ {
+			if b1Fields[inner.Field(j).Name()] {
+				n++
+			}
+		}
+		if n >= 2 {
+			out[nt.Obj().Pkg().Path()+"."+nt.Obj().Name()] = true
+		}
+	}
+	return out
+}
+
+// batchFieldOf: the access is to a batch field of the service or of a batch carrier object; returns the field's name.
+func batchFieldOf(c *Ctx, fa *ssa.FieldAddr) (string, bool) {
+	k := fieldKey(fa.X.Type(), fa.Field)
+	f := k[strings.LastIndex(k, ".")+1:]
+	if !b1Fields[f] {
+		return "", false
+	}
+	owner := k[:strings.LastIndex(k, ".")]
+	if strings.HasSuffix(owner, "service.InsertServiceV2") || batchCarriers(c)[owner] {
+		return f, true
+	}
+	return "", false
+}
+
+// carrierStore: the store replaces a whole batch carrier object (`*b = batchBuffer{…}`): every batch field of it is written.
+func carrierStore(c *Ctx, st *ssa.Store) []string {
+	pt, ok := st.Addr.Type().Underlying().(*types.Pointer)
+	if !ok {
+		return nil
+	}
+	nt := namedOf(pt.Elem())
+	if nt == nil || nt.Obj().Pkg() == nil || !batchCarriers(c)[nt.Obj().Pkg().Path()+"."+nt.Obj().Name()] {
+		return nil
+	}
+	if _, isField := st.Addr.(*ssa.FieldAddr); isField {
+		// svc.pending = batchBuffer{…}
+	}
+	inner := nt.Underlying().(*types.Struct)
+	var out []string
+	for j := 0; j < inner.NumFields(); j++ {
+		if b1Fields[inner.Field(j).Name()] {
+			out = append(out, inner.Field(j).Name())
+		}
+	}
+	return out
+}
+
 // trioWrites: the instructions of fn that write a shared batch field — a store, or a call of a function that (without taking the
 // lock itself) does so — with the fields written.
 func (l *svcLocks) trioWrites(fn *ssa.Function, depth int, memo map[*ssa.Function]map[ssa.Instruction][]string) map[ssa.Instruction][]string {
@@ -156,21 +236,20 @@ func (l *svcLocks) trioWrites(fn *ssa.Function, depth int, memo map[*ssa.Functio
 			switch x := ins.(type) {
 			case *ssa.Store:
 				if fa, ok := x.Addr.(*ssa.FieldAddr); ok {
-					k := fieldKey(fa.X.Type(), fa.Field)
-					if strings.Contains(k, "service.InsertServiceV2.") {
-						if f := k[strings.LastIndex(k, ".")+1:]; b2Trio[f] {
-							out[ins] = append(out[ins], f)
-						}
+					if f, ok := batchFieldOf(l.c, fa); ok && b2Trio[f] {
+						out[ins] = append(out[ins], f)
+					}
+				}
+				for _, f := range carrierStore(l.c, x) {
+					if b2Trio[f] {
+						out[ins] = append(out[ins], f)
 					}
 				}
 			case *ssa.UnOp:
 				// a read of a batch field belongs to the swap as well (marked "r:" — it does not count as a written field)
 				if fa, ok := x.X.(*ssa.FieldAddr); ok && x.Op == token.MUL {
-					k := fieldKey(fa.X.Type(), fa.Field)
-					if strings.Contains(k, "service.InsertServiceV2.") {
-						if f := k[strings.LastIndex(k, ".")+1:]; b2Trio[f] {
-							out[ins] = append(out[ins], "r:"+f)
-						}
+					if f, ok := batchFieldOf(l.c, fa); ok && b2Trio[f] {
+						out[ins] = append(out[ins], "r:"+f)
 					}
 				}
 			case *ssa.Call:
